@@ -1592,10 +1592,10 @@ class ArmiObject(metaclass=CompositeModelType):
         }
         self.setNumberDensities(densitiesScaled)
         # Update detailedNDens
-        if self.p.detailedNDens is not None:
+        if "detailedNDens" in self.p and self.p.detailedNDens is not None:
             self.p.detailedNDens *= factor
         # Update pinNDens
-        if self.p.pinNDens is not None:
+        if "pinNDens" in self.p and self.p.pinNDens is not None:
             self.p.pinNDens *= factor
 
     def clearNumberDensities(self):
